@@ -253,8 +253,26 @@ def rets_of(trace, run):
     return out
 
 
-def differential(c, name, trace, runs, scns, base_origin=0):
+def chan_rets_of(trace, run):
+    """observable results of a channel history (addresses of payloads are not observables of the history)"""
+    out = []
+    for e in extract_run(trace, run):
+        if e["k"] == "panic":
+            out.append(("panic", e["x"]))
+        elif e["k"] == "ret":
+            x = dict(e["x"]) if isinstance(e["x"], dict) else e["x"]
+            if isinstance(x, dict):
+                x.pop("addr", None)
+            out.append((e["fn"], json.dumps(x, sort_keys=True)))
+        elif e["k"] == "final":
+            x = e["x"] if isinstance(e["x"], dict) else {}
+            out.append(("final", json.dumps({k: x.get(k) for k in ("left", "drops", "held", "pending", "running") if k in x}, sort_keys=True)))
+    return out
+
+
+def differential(c, name, trace, runs, scns, base_origin=0, rets_of=None):
     """single-thread histories: the results at every origin / build must be those at origin 0 (C15)"""
+    rets_of = rets_of or globals()["rets_of"]
     by_scn = {}
     for r in runs:
         by_scn.setdefault(r["scn"], []).append(r)
@@ -302,8 +320,46 @@ def conform_seq(c, name, sut, hists, n, module, consts, profile, origins, l1_con
     return trace, runs
 
 
+def C15_channels(c):
+    """the channels themselves: besides the event ring (or the allocator's free list) every channel owns a second wrapping structure, the streams
+       manager's queue of vacant stream ids (a FullSyncMove whose counters start at the same sequence origin).  Sequential histories of create /
+       send / poll / drop / running-count from origin 0 and from every origin around 2^32: judged by the L1 oracle at every origin, and compared
+       result by result with origin 0 (yielded values, accept / reject answers, reported counts, what is left buffered at the end)."""
+    quick = c.tier == "quick"
+    cnt, ln = (4, 12) if quick else (24, 16)
+    uni_kinds = ["uni_move_atomic", "uni_move_fullsync", "uni_zc_atomic"] if quick else UNI_KINDS
+    multi_kinds = ["multi_arc_atomic", "multi_ogre_atomic", "multi_arc_fullsync"] if quick else MULTI_NONLOG
+    for kind in uni_kinds + multi_kinds:
+        multi = kind.startswith("multi")
+        scns = []
+        for s_ in (2, 4):
+            origins = [U32 - k for k in range(1, 2 * s_ + 2)]
+            if quick:
+                origins = origins[::2] + [U32 - s_]
+            # (a fixed warm-up moves the vacant-id queue's counters: ids handed out and given back before the random part)
+            warm = [CREATE(), CREATE(), DROPS(0), CREATE(), DROPS(1), DROPS(2)]
+            for hname, ops, nl in lifetime_histories(c.seed * 17 + s_, cnt, ln, s_, max_sends=3):
+                shift = lambda o: dict(o, s=o["s"] + 3) if o["op"] in ("poll", "drop_stream") else o
+                hist = warm + [shift(o) for o in ops]
+                if not multi:
+                    # Uni: a stream must exist for polls to make sense; sends are accepted up to the buffer size regardless
+                    pass
+                for o_ in sorted(set([0] + origins)):
+                    sc = cscn("%s_s%d_%s_o%d" % (kind, s_, hname, o_), kind, 4, s_, [hist], dfs(0, 1), pre_streams=0, payload="u64")
+                    sc["origin"] = o_
+                    sc["_hist"] = "s%d_%s" % (s_, hname)
+                    scns.append(sc)
+        clean = [{k: v for k, v in s.items() if not k.startswith("_")} for s in scns]
+        if multi:
+            trace, runs, v = conform_chan(c, "%s_origins" % kind, clean, "Trace_AbsMulti", multi_consts(4, 1, ["InvNoInvention", "InvAtMostOncePerListener", "InvOnlyLifetimeEvents", "InvRunningCount", "NoPanic"], nlis=16))
+        else:
+            trace, runs, v = conform_chan(c, "%s_origins" % kind, clean, "Trace_AbsUni", uni_consts(4, 1, kind, ["InvDeliveredAtMostOnce", "InvNoLossNoInvention", "NoPanic"]))
+        differential(c, "%s_origins" % kind, trace, runs, scns, rets_of=chan_rets_of)
+
+
 def C15(c):
     quick = c.tier == "quick"
+    C15_channels(c)
     # design level: every origin of the (small) counter modulus, with and without overflow checks
     for checks in (True, False):
         for script, procs in (("Script_resv", 2), ("Script_resv2", 2), ("Script_2p1c", 3)) + (() if quick else (("Script_2p2c", 4),)):
